@@ -38,6 +38,7 @@ def expand_hl(s):
             if b'-' in r:
                 lo, hi = r.split(b'-')
                 w = len(lo)
+                if int(hi) - int(lo) >= 16384: raise ValueError('too many hosts in range')      # MAX_RANGE: the library refuses these
                 for k in range(int(lo), int(hi) + 1): out.append(pre + (b'%0*d' % (w, k)) + suf)
             else: out.append(pre + r + suf)
     return out
